@@ -369,8 +369,23 @@ def gen(seed, run, tier='quick'):
              'items': [[fn, 1], [dn, 1]], 'style': rng.randrange(3),
              'ref_sym': f'a{n}', 'auto_ref': False, 'quantum': None,
              'expect': 'accept', 'dup_dim': False})
+        cyc_ = f'a{n}'
+        n = model.fresh()
+        khz_ = f'u{n}'
+        add({'a': 'scaled_unit', 'type': fn, 'sym': khz_, 'parent': hz_,
+             'k': {'t': 'int', 'v': '1000'}, 'via': 'rmul',
+             'expect': 'accept'})
+        if rng.random() < 0.7:
+            # ... and a unit of the cancelling type that has exactly the
+            # scale of kHz * s
+            n = model.fresh()
+            add({'a': 'scaled_unit', 'type': f'D{n - 2}', 'sym': f'u{n}',
+                 'parent': cyc_, 'k': {'t': 'int', 'v': '1000'},
+                 'via': 'rmul', 'expect': 'accept'})
         scenario_probes += [('uu*', hz_, s_), ('uu*', s_, hz_),
-                            ('uu*', hz_, s_), ('qq*', s_, hz_)]
+                            ('uu*', hz_, s_), ('qq*', s_, hz_),
+                            ('uu*', khz_, s_), ('qq*', s_, khz_),
+                            ('uu*', s_, khz_)]
     if rng.random() < 0.1:
         # scenario: symbols that look like rendered terms.  X*Y has the
         # unit 'x·y'; its square renders as 'x·y²' when written without
